@@ -194,6 +194,30 @@ pub fn main(args: &Args) -> i32 {
             }
         }
     }
+    // unacceptable pattern tails next to subpattern references (regex, skip and subpattern form): the position of the
+    // offending part differs between the pattern as written and the pattern after substitution
+    for (tail, reason) in model::soup::BAD_TAILS {
+        for (wi, w) in model::soup::REF_SUBPATTERNS.iter().enumerate() {
+            let pats = [format!("(?&w){tail}"), format!("(?&w)(?&w)-{tail}"), format!("é(?&w){tail}"), format!("{tail}(?&w)"), format!("((?&w))={tail}")];
+            let pat = &pats[wi % pats.len()];
+            for form in 0..3 {
+                let src = match form {
+                    0 => format!("#[derive(Logos)]\n#[logos(subpattern w = \"{w}\")]\nenum T {{\n    #[regex(\"{pat}\")]\n    V0,\n    #[token(\"zq\")]\n    V1,\n}}\n"),
+                    1 => format!("#[derive(Logos)]\n#[logos(subpattern w = \"{w}\")]\n#[logos(skip \"{pat}\")]\nenum T {{\n    #[token(\"zq\")]\n    V1,\n}}\n"),
+                    _ => format!("#[derive(Logos)]\n#[logos(subpattern w = \"{w}\")]\n#[logos(subpattern v = \"{pat}\")]\nenum T {{\n    #[regex(\"(?&v)!\")]\n    V0,\n    #[token(\"zq\")]\n    V1,\n}}\n"),
+                };
+                let d = derive_rust(src.clone());
+                run.eval(1);
+                run.count("must_reject_tails_next_to_references", 1);
+                if let Err(msg) = judge(&src, Some(reason), true, &d) {
+                    run.violations = 1;
+                    report_violation("C19", &args.replay_dir, &json!({"property": "C19", "tier": "G", "source": src, "must_reject": reason, "fragments_ok": true, "findings": [{"property": "C19", "what": msg}]}));
+                    run.write_evidence(&args.evidence);
+                    return 1;
+                }
+            }
+        }
+    }
     for (shape, reason) in model::soup::MUST_REJECT_SHAPES {
         // the offending variant with a pattern, with a foreign attribute only, and bare (a variant without a pattern is no
         // token of the lexer, its shape is rejected all the same)
